@@ -11,6 +11,19 @@ BASE_NOTE = ("Trusted base: rustc front end/MIR construction as dumped by engine
              "crates assumed total. ")
 
 CLAIMS = {
+    "C11": dict(
+        category="other",
+        technique="abstract interpretation of the step function against scripted abstract clock edges (loop unrolling) + micro-program reachability analysis",
+        text=("The control skeleton of Machine::trigger_key_clock is decided independently of how its loops are written: the "
+              "function is abstractly interpreted with the clock edge replaced by an abstract edge that walks a scripted sequence "
+              "of DONE/non-DONE control words and halts; in every scenario (at a boundary, with a wait, mid-instruction, halting "
+              "during the step, already halted; both step modes) the number of edges issued must equal the reference definition "
+              "and nothing else may be written. On the micro-CFG no boundary has a boundary successor, and 'a step returns' is "
+              "decided per opcode by reachability of a boundary from every control state of its routine."),
+        note=("Known findings (36 keys): the 20 undefined first bytes and, for each two-byte form, the undefined second bytes "
+              "0x48-0x4f/0x70-0xff sit in exit-less non-DONE self-loops, so an assembly step never returns there. Not decided: "
+              "MUL/DIV termination as a numeric fact."),
+        design="3/C11"),
     "C07": dict(
         category="other",
         technique="mod-set and reset-value analysis by abstract interpretation over MIR against a reset-class table",
